@@ -550,7 +550,7 @@ func seedProg(pre refState) []probe.Op {
 func main() {
 	r = ev.Start("C15", "model_checking")
 	r.Require("tx-success", "tx-fail", "tx-fail-after-write", "tx-fail-after-merkleval", "tx-fail-inside-callee",
-		"block-mixed", "committed-block", "real-tx-success", "real-tx-fail", "real-tx-fail-after-writes")
+		"block-mixed", "committed-block", "real-tx-success", "real-tx-fail", "real-tx-fail-after-writes", "concurrent-blocks-explored")
 	vals = polyenv.Keys(4)
 	polyenv.Setup(0, vals)
 	polyenv.InstallHeightLedger()
@@ -612,6 +612,22 @@ func main() {
 		sandbox = make([]*ledgerstore.VerifC15Sandbox, len(pool))
 		for i, w := range pool {
 			sandbox[i] = w.Ch.L.VerifC15NewSandbox()
+		}
+
+		// ---- Space E first: schedules of two concurrent block executions, under the controlled scheduler (one thread runs at
+		// a time). A change that makes executions share package-level state turns the free-running 16-worker phases below into
+		// genuine data races (memory corruption, crashes), so when E reports anything the run ends here with that verdict.
+		if pi == 0 {
+			cov["E_concurrent_blocks"] = spaceE(pool[0], pool[1], pre, bodies3)
+			lap("E")
+			vmu.Lock()
+			nv := len(viols)
+			vmu.Unlock()
+			if nv > 0 {
+				cov["stopped_after_space_E"] = "a concurrent-execution violation was found; free-running parallel phases skipped"
+				probe.ClosePool(pool)
+				break
+			}
 		}
 
 		// ---- Space A: one-transaction blocks
